@@ -606,6 +606,11 @@ def run_case(case):
             if not node_sites <= set(have):
                 tally_failed.add(A_SITE)
                 add("C11/authz/tally/site/missing", f"{A_SITE}: collected {have}, node sites {sorted(node_sites)} [{ctx}]")
+            elif not fac_sites <= set(have):
+                # "every site used": a site at which the slice only has a facility is a site used as well
+                tally_failed.add(A_SITE)
+                add("C11/authz/tally/site/facility-site-missing",
+                    f"{A_SITE}: collected {have}, facility sites {sorted(fac_sites)} [{ctx}]")
             if not set(have) <= (node_sites | fac_sites) or len(have) != len(set(have)):
                 tally_failed.add(A_SITE)
                 add("C11/authz/tally/site/spurious", f"{A_SITE}: collected {have}, sites of the slice "
